@@ -475,8 +475,8 @@ Proof.
 Qed.
 
 (** * The principal helper: one response, with the request path, accounted *)
-Theorem principal_ok : forall cup homesets path ct bd,
-  match serve_principal cup homesets path ct bd with
+Theorem principal_ok : forall cup homesets path ct bd dh,
+  match serve_principal cup homesets path ct bd dh with
   | Ok rs => exists pf r, decode_propfind_request ct bd = Ok pf /\ rs = [r] /\ r_href r = path /\
                           accounted pf (principal_props cup homesets) r
   | Err c => c = 400%N
@@ -487,10 +487,11 @@ Proof.
   destruct (decode_propfind_request ct bd) as [pf|c|] eqn:D; simpl.
   - pose proof (decode_ok _ _ _ D) as NF.
     pose proof (accounting path pf (principal_props cup homesets)) as A.
-    destruct (new_propfind_response path pf (principal_props cup homesets)) as [r|c|]; simpl.
-    + exists pf, r. tauto.
-    + destruct A as [_ FN]. apply form_of_none in FN. congruence.
-    + exact A.
+    destruct dh; simpl; try reflexivity;
+      (destruct (new_propfind_response path pf (principal_props cup homesets)) as [r|c|]; simpl;
+       [ exists pf, r; tauto
+       | destruct A as [_ FN]; apply form_of_none in FN; congruence
+       | exact A ]).
   - eapply decode_err; eauto.
   - exact (decode_no_panic _ _ D).
 Qed.
